@@ -23,7 +23,12 @@ RULE = ("per session kind (rtmp Write / Writev, http-flv, http-ts, rtsp interlea
         "boundary sweep of the stall/resume point (0..cap+2 reads between publishes), of the queue-full instant relative to each write, "
         "of the byte offset at which a blocked write fails, of sweep/dispose positions, with 1..3 consumers (stalled, slow, healthy, twins "
         "around a disturber); then seeded random schedules; the same through a real logic.Group (fan-out + Tick sweep) for flv/ws-flv/rtmp "
-        "subscribers.  A case is non-trivial when the model output shows at least one rejected or dropped unit, a closed connection or a "
+        "subscribers; rtsp subscribers in every set-up state (per track: never SETUP / UDP sockets / interleaved channel / both): a player "
+        "with one, both or no track set up that stops reading, with packets of its own and of the other track between sweeps, next to a "
+        "reading twin, UDP tracks with datagrams read back from loopback sockets, random schedules over random set-up states, and the same "
+        "through a real logic.Group (OnRtpPacket + Tick); the join of a real rtmp player (handshake..play over a conn that stalls inside "
+        "OnNewRtmpSubSession, with a message written from there); the measured cost of 100 writes to a full queue per kind.  "
+        "A case is non-trivial when the model output shows at least one rejected or dropped unit, a closed connection or a "
         "partially delivered unit (distinct by kind set, capacities and outcome signature)")
 ASSUMPTIONS = [
     "PARTIAL: the latency bound and the firing of the OS write deadline are runtime behaviour; the thorough tier measures them on loopback TCP (coverage.runtime), no theorem covers them",
@@ -31,6 +36,11 @@ ASSUMPTIONS = [
     "a net.Conn.Write is all-or-nothing except for the explicit fail-after-n-bytes op; net.Buffers on a non-TCP conn is one Write per buffer",
     "byte counters do not wrap (2^64 bytes)",
     "RTSP-over-WebSocket command responses (OPTIONS/PLAY/... replies) still use two connection writes; only media packets are covered",
+    "rtsp UDP tracks: a datagram write succeeds while the session is not disposed (loopback sockets, packets <= 1412 bytes); the harness disposes the "
+    "sub session when its command connection closed itself, as rtsp.Server.handleTcpConnect does after RunLoop returns",
+    "rtsp subscribers are driven with the SDP of the harness (video = payload type 96 / channel 0, audio = 97 / channel 2)",
+    "cost of a write to a full queue: measured (fastest of 3 batches of 100 writes, bound 1 ms per write = about 600 x the measured 1-2 us); the proof part "
+    "is c15_one_attempt (one connection write call per unit in every queue state) tied to the code by the counted Write/Writev calls",
 ]
 FULL_OUTPUT = True
 TIMEOUT = 900
